@@ -42,8 +42,18 @@ def gen_calls(rng, n):
             if matrix and used:
                 used = list(range(max(used) + 1))
             kw["initial_state"] = [[x, rng.choice([1, -1])] for x in used]
-        calls.append({"id": cid, "fn": fn, "kind": kind, "terms": terms, "den": den, "labels": labels, "kwargs": kw,
-                      "trace": True, "twice": True})
+        call = {"id": cid, "fn": fn, "kind": kind, "terms": terms, "den": den, "labels": labels, "kwargs": kw,
+                "trace": True, "twice": True}
+        if rng.random() < 0.15:
+            # real coefficients far below 1: the whole model and the temperatures scaled by 2^-43 or 2^-30 (exact in binary
+            # floating point); the record keeps the numerators, so the specification sees the same small integers
+            e = rng.choice([43, 30])
+            call["den"] = den * 2 ** e
+            call["scale_exp"] = -e
+            kw["schedule"] = [T * 2.0 ** -e for T in kw["schedule"]]
+        if kind != "dict" and terms and rng.random() < 0.2:
+            call["warm"] = True
+        calls.append(call)
     return calls
 
 
@@ -125,7 +135,8 @@ def to_record(call, out, tid):
         pi = list(range(mi["N"]))            # Matrix kinds: the property demands the identity (verified by TLC)
     elif m:
         pi = ac.find_pi(ac.kernel_terms_from_marshal(m, den), call["terms"], mi["N"], keys, [a["st"] for a in api], ev_sts)
-    rec = {"tid": tid, "id": call["id"], "fn": call["fn"], "kind": call["kind"], "den": den, "matrix": matrix,
+    rec = {"tid": tid, "id": call["id"], "fn": call["fn"], "kind": call["kind"], "den": den if den < 2 ** 20 else 1,
+           "scale_exp": call.get("scale_exp", 0), "matrix": matrix,
            "user": call["terms"], "pi": pi, "inorder": bool(m.get("in_order", 0)), "tpos": [bool(T > 0) for T in m.get("Ts", [])],
            "init": m.get("init", []), "api": api, "api2": api2, "ev2_equal": bool(out.get("ev2_equal", False)),
            "ev": evs, "complete": True, "raised": out.get("raised", "") or out.get("raised2", ""), "badnum": badnum}
